@@ -408,17 +408,34 @@ func intBits(t types.Type) (bits int, unsigned bool, ok bool) {
 		return 16, true, true
 	case types.Uint32:
 		return 32, true, true
-	case types.Uint64, types.Uint, types.Uintptr:
+	case types.Uint64:
 		return 64, true, true
+	case types.Uint, types.Uintptr:
+		return proverWordBits, true, true
 	case types.Int8:
 		return 8, false, true
 	case types.Int16:
 		return 16, false, true
 	case types.Int32:
 		return 32, false, true
-	default:
+	case types.Int64:
 		return 64, false, true
+	default:
+		return proverWordBits, false, true
 	}
+}
+
+// proverWordBits is the width of int/uint on the configuration being analysed (32 on 386, arm, mips*).
+// With 32 a conversion uint32 -> int is no longer the identity: the prover then needs a dominating
+// bound below 2^31 for every declared size it converts.
+var proverWordBits = 64
+
+func wordBitsOf(goarch string) int {
+	switch goarch {
+	case "386", "arm", "mips", "mipsle":
+		return 32
+	}
+	return 64
 }
 
 func isIntLike(t types.Type) bool {
@@ -1227,6 +1244,14 @@ func entails(facts []cons, goal lin) bool {
 		}
 		if !grew {
 			break
+		}
+	}
+	if proverWordBits == 32 {
+		// lengths are ints: below 2^31 on a 32-bit configuration
+		for k := range rel {
+			if k.isLen {
+				cs = append(cs, ge(konst(1<<31-1), atomLin(k)).e)
+			}
 		}
 	}
 	if len(cs) > 120 {
